@@ -98,7 +98,7 @@ func init() {
 	propertyPlans["C03"] = &PropertyPlan{ID: "C03",
 		NotDecided: []string{
 			"that the ring assembly only rearranges or drops the coordinates handed out by SnapClosestPoints (trusted leaves, no element-wise specification; bounded stand-in ring-assembly-small-alphabet only)",
-			"second sentence (bound by the reported deviation for grids that do not divide evenly): DeviationStats is only proved panic-free"},
+			"second sentence, exactly as stated: what is proved (lemmas centre_dev, dev_remainder, centre_near_ideal over the contract of DeviationStats and the grid formula of indexGrid) is 0 <= ideal centre - index centre <= reported deviation + 2.5e-10 CRS units, the slack being the truncation of the two float corners of the extent and of the half pixel to the internal 1e-10 resolution; 'never exceeds the reported deviation' without that slack is not decided"},
 		Assumptions: []string{"float64 as real numbers: centre / 1e10 is exact", "preconditions of SnapPolygon's contract"},
 		Extra:       func(cc *checkCtx) *extraResult { return cc.runOverlayTests([]overlayTest{descentLattice, ringAssembly}) },
 	}
